@@ -118,6 +118,19 @@ fn replay(path: &str) -> i32 {
                 }
             }
         }
+        Some("c02_views_only") => {
+            let h: ops::History = serde_json::from_value(doc["history"].clone()).expect("history");
+            match checks_book::replay_views_only(&h) {
+                true => {
+                    println!("REPRODUCED property=C02");
+                    1
+                }
+                false => {
+                    println!("NOT-REPRODUCED property=C02");
+                    0
+                }
+            }
+        }
         Some("env_session") => checks_env::replay_env(&doc),
         Some("market_session") => checks_mixed::replay_market(&doc),
         Some("c20") => c20::replay_c20(&doc),
